@@ -101,4 +101,38 @@ def evalEnum {α : Type} (op : α → α → α) (dflt : α) (arms : List Arm) (
     if a.1 = v ∧ b.1 = v then some (.error .unit) else evalEnum op dflt rest a b
   | .mismatch :: _ => some (.error .mismatch)
 
+/-! #### `Not` / `Neg` on enums (`not_like::enum_output_type_and_content`) -/
+
+/-- The output is wrapped in `Result<Self, UnitError>` iff the enum has a **unit** variant; a
+field-less tuple or struct variant (`Empty()`, `Empty {}`) is `.fields 0` and does not count. -/
+def notHasUnit (vs : List VKind) : Bool := vs.any fun k => k = .unit
+
+/-- One arm of `match self` per variant. -/
+inductive NotArm where
+  /-- `E::U => Err(UnitError)` -/
+  | unitErr
+  /-- `E::V(x..) => E::V(x.not()..)`, wrapped in `Ok(..)` iff `wrap` -/
+  | map (n : Nat) (wrap : Bool)
+  deriving Repr, DecidableEq, Inhabited
+
+def notArms (vs : List VKind) : List NotArm :=
+  vs.map fun k => match k with
+    | .unit => .unitErr
+    | .fields n => .map n (notHasUnit vs)
+
+inductive NotOut (α : Type) where
+  | plain (v : Nat × List α)      -- the enum itself
+  | ok (v : Nat × List α)         -- `Ok(enum)`
+  | err                           -- `Err(UnitError)`
+  deriving Repr, DecidableEq
+
+/-- The generated `match self` on a value (variant index, fields): arm `a.1` fires. -/
+def evalNot {α : Type} (u : α → α) (dflt : α) (arms : List NotArm) (a : Nat × List α) : Option (NotOut α) :=
+  match arms[a.1]? with
+  | none => none
+  | some .unitErr => some .err
+  | some (.map n wrap) =>
+    let v := (a.1, (fieldwiseUn n).map (eval (fun x _ => x) (fun x (_ : Unit) => x) u (fun _ => dflt) a.2 a.2 () dflt))
+    some (if wrap then .ok v else .plain v)
+
 end Dm.Ops
